@@ -937,7 +937,7 @@ def _notify_snapshot_rule(kind):
 
     prop = PROP_OF[kind]
 
-    @rule(f"{prop}.notify-snapshot", [prop, "C09", "C02"],
+    @rule(f"{prop}.notify-snapshot", [prop, "C08", "C09", "C02"],
           f"Trait{kind.capitalize()}.notify calls every notifier that was "
           f"registered when the change happened: it iterates over a copy of "
           f"self.notifiers (a notifier that removes itself - or another one - "
@@ -950,14 +950,56 @@ def _notify_snapshot_rule(kind):
         if fn is None:
             raise AnalysisError(f"{base.name}.notify missing")
         selfn = fn.args.args[0].arg
+        from ..pyfacts import expand_locals
         loops = [n for n in ast.walk(fn) if isinstance(n, (ast.For,
                                                           ast.comprehension))
-                 and f"{selfn}.notifiers" in norm(n.iter)]
+                 and f"{selfn}.notifiers" in norm(expand_locals(fn, n.iter))]
         if not loops:
             raise AnalysisError(f"{base.name}.notify: dispatch loop not "
                                 f"found")
-        from ..pyfacts import expand_locals
         for lp in loops:
+            # every notifier of the snapshot is called: the call of the loop
+            # variable is not nested in a condition
+            if isinstance(lp, ast.For) and isinstance(lp.target, ast.Name):
+                tv = lp.target.id
+
+                def guarded(stmts, under):
+                    out = []
+                    for st in stmts:
+                        if isinstance(st, ast.If):
+                            out += guarded(st.body, under + [st.test])
+                            out += guarded(st.orelse, under + [st.test])
+                        elif isinstance(st, (ast.Try,)):
+                            out += guarded(st.body, under)
+                            out += guarded(st.orelse, under)
+                            out += guarded(st.finalbody, under)
+                        elif isinstance(st, (ast.With, ast.For, ast.While)):
+                            out += guarded(st.body, under)
+                        else:
+                            for c in ast.walk(st):
+                                if isinstance(c, ast.Call) and isinstance(
+                                        c.func, ast.Name) and c.func.id == tv:
+                                    out.append((c, under))
+                    return out
+                sites = guarded(lp.body, [])
+                skips = [x for x in ast.walk(lp) if isinstance(
+                    x, (ast.Continue, ast.Break))]
+                res.oblige(bool(sites), f"{base.name}.notify:dispatch-call",
+                           mod.loc(lp),
+                           f"{base.name}.notify: the loop over the notifiers "
+                           f"does not call `{tv}(...)`")
+                for c, under in sites:
+                    res.oblige(not under and not skips,
+                               f"{base.name}.notify:conditional-dispatch",
+                               mod.loc(c),
+                               f"{base.name}.notify calls a notifier of the "
+                               f"snapshot only under "
+                               f"`{norm(under[0]) if under else 'continue/break'}`"
+                               f": every notifier registered when the change "
+                               f"happened must see it (the observer "
+                               f"maintainers among them un-hook and re-hook "
+                               f"downstream objects; one that is skipped "
+                               f"leaves stale or missing hooks)")
             it = expand_locals(fn, lp.iter)
             t = norm(it)
             copied = t in (f"list({selfn}.notifiers)",
@@ -978,3 +1020,82 @@ def _notify_snapshot_rule(kind):
 
 for _k in ("list", "dict", "set"):
     _notify_snapshot_rule(_k)
+
+
+# ---------------------------------------------------------------------------
+# C06.delta-accumulation: what update() reports for a key is what it stores
+
+@rule("C06.delta-accumulation", ["C06", "C08"],
+      "while TraitDict.update / |= collect their event, no entry of the "
+      "added/changed/validated dictionaries is made conditional on what was "
+      "collected so far: for a key that occurs several times the built-in "
+      "dict lets the last occurrence win, and so must the event")
+def delta_accumulation(ctx, res):
+    from .containers import container_classes
+    repo, classes = container_classes(ctx)
+    mod, base, obj = classes["dict"]
+    funcs = list(base.methods.values()) + [
+        f for f in mod.functions.values()
+        if isinstance(f, (ast.FunctionDef,))]
+    n = 0
+    seen_fn = set()
+    for fn in funcs:
+        if id(fn) in seen_fn:
+            continue
+        seen_fn.add(id(fn))
+        # locals that start as an empty dict and receive item stores
+        empties = set()
+        for a in ast.walk(fn):
+            if isinstance(a, ast.Assign) and (
+                    (isinstance(a.value, ast.Dict) and not a.value.keys)
+                    or (isinstance(a.value, ast.Call) and norm(a.value) == "dict()")):
+                for t in a.targets:
+                    if isinstance(t, ast.Name):
+                        empties.add(t.id)
+        if len(empties) < 2:
+            continue
+
+        def walk(stmts, under):
+            for st in stmts:
+                if isinstance(st, ast.If):
+                    yield from walk(st.body, under + [st.test])
+                    yield from walk(st.orelse, under + [st.test])
+                elif isinstance(st, (ast.For, ast.While, ast.With)):
+                    yield from walk(st.body, under)
+                    yield from walk(getattr(st, "orelse", []), under)
+                elif isinstance(st, ast.Try):
+                    for blk in (st.body, st.orelse, st.finalbody):
+                        yield from walk(blk, under)
+                    for h in st.handlers:
+                        yield from walk(h.body, under)
+                elif isinstance(st, ast.Assign):
+                    for t in st.targets:
+                        if isinstance(t, ast.Subscript) and isinstance(
+                                t.value, ast.Name) and t.value.id in empties:
+                            yield st, t.value.id, under
+        stores = list(walk(fn.body, []))
+        if not stores:
+            continue
+        n += 1
+        key = f"{fn.name}"
+        res.instance(key, mod.loc(fn), collectors=sorted(empties),
+                     stores=len(stores))
+        ok = True
+        for st, name, under in stores:
+            for test in under:
+                used = {x.id for x in ast.walk(test) if isinstance(x, ast.Name)}
+                hit = used & empties
+                if hit:
+                    ok = False
+                    res.violation(f"{key}:delta-store-guard:{name}",
+                                  mod.loc(st),
+                                  f"{fn.name}: the entry `{norm(st)[:60]}` is "
+                                  f"recorded only under `{norm(test)[:60]}`, a "
+                                  f"test on what was collected so far "
+                                  f"({sorted(hit)}): for a key that occurs "
+                                  f"twice in the argument the dictionary "
+                                  f"ends up with the last value while the "
+                                  f"event reports another one")
+        if ok:
+            res.oblige(True, key, "", "")
+    res.floor(2)
